@@ -43,7 +43,7 @@ fn check_c05(case: &Case) -> Verdict {
             return v;
         }
     } else {
-        // at most once per element, and only elements the sequential chain would feed to that stage
+        // the statement for short-circuit terminals: each closure at most once per element (nothing more is asserted)
         for w in got.windows(2) {
             if w[0] == w[1] {
                 v.fail = Some(Verdict::fail(
@@ -53,23 +53,10 @@ fn check_c05(case: &Case) -> Verdict {
                 return v;
             }
         }
-        let exp_set: std::collections::BTreeSet<_> = exp.iter().collect();
-        if let Some(x) = got.iter().find(|x| !exp_set.contains(x)) {
-            v.fail = Some(Verdict::fail(
-                format!("stage {} was called with an element that never reaches it sequentially", x.0),
-                sig("invented-call"),
-            ));
-            return v;
-        }
         let mut preds: Vec<u64> = r.log.iter().filter(|e| e.kind == Kind::Pred).map(|e| e.uid).collect();
         preds.sort();
         if preds.windows(2).any(|w| w[0] == w[1]) {
             v.fail = Some(Verdict::fail("the predicate was evaluated twice on the same element", sig("pred-twice")));
-            return v;
-        }
-        let outs: std::collections::BTreeSet<u64> = m.out.iter().map(|x| x.0.uid).collect();
-        if preds.iter().any(|u| !outs.contains(u)) {
-            v.fail = Some(Verdict::fail("the predicate was evaluated on an element the chain does not yield", sig("pred-invented")));
             return v;
         }
     }
